@@ -206,7 +206,7 @@ def main():
                                functions=d.get('functions'), why_not_deductive=d.get('why_not_deductive'), oracle=d.get('oracle'),
                                bound=(d.get('bound') or {}).get(tier), status=br['status'], evaluations=br.get('evaluations'),
                                distinct_nontrivial=br.get('distinct_nontrivial'), per_family=br.get('per_family'),
-                               rule=d.get('rule'), samples=br.get('samples'), failure_signatures=sigs, wall_s=br.get('wall_s'), note=br.get('note')))
+                               rule=d.get('rule'), samples=br.get('samples'), failure_signatures=sigs, wall_s=br.get('wall_s'), note=br.get('note'), miri=br.get('miri')))
 
     for (kid, bid_), g in sorted(bounded_kf_groups.items()):
         known_lines.append('KNOWN-FINDING: property=%s %s %s (bounded check %s: %d failing inputs in %d signature(s), e.g. %s)' % (
@@ -294,7 +294,7 @@ def main():
                                         'plus one body obligation per real function under contract; discharged = those Verus proved on this run. '
                                         'The verified text is extracted mechanically from %s on every run.' % (prop, repo),
                             **extra),
-              assumptions=sorted(set(assumptions)) + ['assumed contract (callee body not verified in this unit) %s: %s :: %s' % (a['unit'], a['fn'], a['id']) for a in assumed_contracts] + ['A-CALLERS: preconditions are proved only at call sites that are themselves under contract',
+              assumptions=sorted(set(assumptions)) + (['bounded checks (%s): trust the oracle code under /verif/bounded (independent readers, reference models), cargo / rustc of the repository toolchain, serde_json%s; they explore only the stated finite family' % (', '.join(b['id'] for b in bounded_results), ', Miri (nightly) for the interpreted histories' if any(b.get('miri') for b in bounded_results) else '')] if bounded_results else []) + ['assumed contract (callee body not verified in this unit) %s: %s :: %s' % (a['unit'], a['fn'], a['id']) for a in assumed_contracts] + ['A-CALLERS: preconditions are proved only at call sites that are themselves under contract',
                                                       'Verus 0.2026.09.13 / Z3 / rustc 1.98.1 are trusted'],
               wall_s=round(wall, 2), violations=nviol)
     evdir = os.path.join(VERIF, 'evidence') if os.path.realpath(repo) == '/repo' else os.environ.get('VX_SCRATCH_EVIDENCE', '/tmp/vx-scratch-evidence')
